@@ -4,6 +4,7 @@ import Model.Rows
 import Model.RowDataSpec
 import Model.Compress
 import Model.RowsReuse
+import Model.RowsPaged
 import Driver.Util
 import Driver.C12
 namespace Driver.C04
@@ -26,7 +27,17 @@ open Util FrameRead RespSpec
         through scan | scanner | mapscan (a new map per row holding pointers to the same variables); the answer lists the destinations' values after every row. Model: Model/RowsReuse.lean;
         specification: every cell decoded on its own into a fresh zero value (C04_rows_independent) — must agree
   reusex ...   the same, model only (the excluded class of C04_rows_independent_partial, wrong destination counts,
-        rows that do not fit the metadata) -/
+        rows that do not fit the metadata)
+  pages <api> <fv> <prefetch%> <k> (<logical response> WIRE <wire>)*k   a whole query through a real Session: the k-th request of the
+        query (the QUERY and the fetches of its further pages) is answered with the k-th response; scan | scanner with
+        a recorder on every destination; the answer is everything the application sees: the first page's view
+        (metadata, row count, warnings, custom payload), per Scan call the page switch (the new page's view) and the
+        cells, the final error with its fields, the trace ids the Tracer got. Model: Model/RowsPaged.lean;
+        specification: Driver.C04.pagesSpec from the logical responses alone (C04_pages_scan / C04_pages_scanner,
+        C04_query_view) — must agree
+  qone <api> <fv> <ndests> <logical response> WIRE <wire>   Query.Scan / ScanCAS / MapScanCAS on ONE response (model only)
+  pagesx ...   the same, model only (answers that are no result / error, UNPREPARED, void in the middle, pages of
+        different shapes, tuple<> columns, a last page that announces more) -/
 
 /-! ## token parser for logical responses -/
 
@@ -633,6 +644,215 @@ def tSkip : TP (Nat × LResp × FrameRead.Bytes × Nat × LResp × FrameRead.Byt
   let w2 ← tHex
   pure (v1, r1, w1, v2, r2, w2)
 
+
+/-! ## a whole query over its pages (Model/RowsPaged.lean) -/
+
+open Paged in
+def dIterErr : Option IterErr → String
+  | none => "nil"
+  | some (.server code msg d) => s!"E({code},{toHex msg},{dErr d})"
+  | some .protocol => "protocol"
+  | some .parse => "other"
+  | some .scan => "other"
+
+def dPageView (md : ResultMeta) (numRows : Int) (w : Option (List FrameRead.Bytes))
+    (p : Option (List (FrameRead.Bytes × Option FrameRead.Bytes))) : String :=
+  s!"M:{dMeta md} N:{numRows} W:{dWarnings w} P:{dPayload p}"
+
+open Paged in
+def dQView (q : QIter) : String :=
+  match q.hdr with
+  | some h => dPageView q.it.md q.it.numRows h.warnings h.payload
+  | none => dPageView q.it.md q.it.numRows none none
+
+open Paged in
+/-- the trace ids the query's Tracer is called with: one call per parsed response that carries a non-empty id -/
+def tracerCalls (fv : Nat) (consumed : List FrameRead.Bytes) : List FrameRead.Bytes :=
+  consumed.filterMap (fun w => match recv fv w with
+    | .ok (r, _) => (match r.traceId with
+      | some t => if t.length > 0 then some t else none
+      | none => none)
+    | _ => none)
+
+def dTrace (l : List FrameRead.Bytes) : String := "TR:[" ++ commas (l.map toHex) ++ "]"
+
+open Rows Paged in
+/-- `for { dests := one recorder per destination of the CURRENT page; if !iter.Scan(dests...) { break } }` -/
+def pagesScanLoop (fv : Nat) : Nat → List FrameRead.Bytes → QIter → List String → Option (List String × QIter × List FrameRead.Bytes)
+  | 0, fut, q, acc => some (acc, q, fut)
+  | fuel + 1, fut, q, acc =>
+    let dests := List.replicate (widthsOf q.it.md.columns) true
+    let sw := willSwitchPage q          -- the harness asks Iter.WillSwitchPage() before the call
+    match pscan fv true dests fut q with
+    | .row q' fut' calls => pagesScanLoop fv fuel fut' q' (acc ++ [(if sw then "PG(" ++ dQView q' ++ ")>" else "") ++ dCalls calls])
+    | .stop q' fut' calls =>
+      some (acc ++ [(if sw then "PG(" ++ dQView q' ++ ")>" else "") ++ (if calls.isEmpty then "" else "!" ++ dCalls calls) ++ "$"], q', fut')
+    | .crash => none
+
+open Rows Paged in
+/-- `sc := iter.Scanner(); for sc.Next() { sc.Scan(dests...) }` with the destinations of the FIRST page's shape -/
+def pagesScannerLoop (fv : Nat) (dests : List Bool) : Nat → List FrameRead.Bytes → PScanner → List String →
+    Option (List String × String × PScanner × List FrameRead.Bytes)
+  | 0, fut, s, acc => some (acc, "done", s, fut)
+  | fuel + 1, fut, s, acc =>
+    match pnext fv true fut s with
+    | .crash => none
+    | .ok s' fut' false => some (acc, "done", s', fut')
+    | .ok s' fut' true =>
+      match pscannerScan s' dests with
+      | .ok s'' calls => pagesScannerLoop fv dests fuel fut' { s' with cols := s''.cols, valid := s''.valid } (acc ++ [dCalls calls])
+      | .error _ calls => some (acc ++ ["!" ++ dCalls calls], "scanerr", s', fut')
+      | .crash => none
+
+/-- an upper bound of the number of Scan calls: every row of every page (as the frames announce them) and
+    one call per page -/
+def pagesFuel (fv : Nat) (wires : List FrameRead.Bytes) : Nat :=
+  (wires.map (fun w => match Paged.recv fv w with
+    | .ok (r, _) => (match r.frame with | .resultRows _ n => n.toNat + 2 | _ => 2)
+    | _ => 2)).sum + 2
+
+open Rows Paged in
+def pagesModel (api : String) (fv : Nat) (wires : List FrameRead.Bytes) : String :=
+  match execute fv true wires with
+  | none => "crash:go"
+  | some (q0, fut0) =>
+    let out := "ok P0(" ++ dQView q0 ++ ")"
+    let fuel := pagesFuel fv wires
+    match api with
+    | "scan" =>
+      match pagesScanLoop fv fuel fut0 q0 [] with
+      | none => "crash:go"
+      | some (evs, q, fut) =>
+        out ++ " rows:[" ++ "|".intercalate evs ++ "] end:" ++ dIterErr q.err ++ " " ++
+          dTrace (tracerCalls fv (wires.take (wires.length - fut.length)))
+    | "scanner" =>
+      match pagesScannerLoop fv (List.replicate (widthsOf q0.it.md.columns) true) fuel fut0 q0.scanner [] with
+      | none => "crash:go"
+      | some (evs, status, s, fut) =>
+        out ++ " rows:[" ++ "|".intercalate evs ++ "] " ++ status ++ " end:" ++ dIterErr s.q.err ++ " " ++
+          dTrace (tracerCalls fv (wires.take (wires.length - fut.length)))
+    | _ => "bad-op"
+
+/-! ### the specification's expectation of a whole query, from the logical responses alone -/
+
+/-- the view of a page of rows: metadata, row count, warnings, custom payload -/
+def specRowsView (r : LResp) (m : Meta) (rs : List (List Cell)) : String :=
+  dPageView (viewMeta m) rs.length r.warnings r.payload
+
+/-- the view of a response without rows (void / set keyspace / schema change / error) -/
+def specEmptyView (r : LResp) : String := dPageView ResultMeta.zero 0 r.warnings r.payload
+
+def specTrace (rs : List LResp) : String :=
+  dTrace (rs.filterMap (fun r => match r.tracing with | some t => if t.length > 0 then some t else none | none => none))
+
+/-- the Scan events of the pages after the first: the first row of a page is preceded by the page's view;
+    an empty page in the middle leaves no trace (the application never sees it); the LAST response, when it
+    has no rows (an empty last page, an error), shows in the final `false` -/
+def specEvents (scanner : Bool) : Bool → List LResp → Option (List String × String)
+  | _, [] => none
+  | first, r :: more =>
+    match r.body with
+    | .result (.rows m rs) =>
+      (match rs.mapM (expectRow (colTypes m.cols)) with
+       | none => none
+       | some rows =>
+         let pre := if scanner || first then "" else "PG(" ++ specRowsView r m rs ++ ")>"
+         let evs := match rows.map dExpectScan with
+           | [] => []
+           | e :: es => (pre ++ e) :: es
+         match more with
+         | [] =>
+           if m.paging.isSome then none
+           else some (evs ++ (if scanner then [] else [(if rows.isEmpty then pre else "") ++ "$"]), "nil")
+         | _ :: _ =>
+           if m.paging.isNone || m.paging == some [] then none
+           else match specEvents scanner false more with
+             | none => none
+             | some (evs', e) => some (evs ++ evs', e))
+    | .error msg e =>
+      (match more, e with
+       | _ :: _, _ => none
+       | [], .unprepared _ => none
+       | [], e => some ((if scanner then [] else ["PG(" ++ specEmptyView r ++ ")>$"]),
+           s!"E({e.code},{toHex msg},{dErr (viewErr e)})"))
+    | _ => none
+
+def sameShape (scanner : Bool) (ms : List Meta) : Bool :=
+  match ms with
+  | [] => true
+  | m :: rest => rest.all (fun m' => totalWidthOf m' == totalWidthOf m && (!scanner || (colTypes m'.cols).length == (colTypes m.cols).length))
+where totalWidthOf (m : Meta) : Nat := ((colTypes m.cols).map destWidth).sum
+
+def rowsMetas (rs : List LResp) : List Meta :=
+  rs.filterMap (fun r => match r.body with | .result (.rows m _) => some m | _ => none)
+
+/-- expected answer of a `pages` op -/
+def pagesSpec (api : String) (rs : List LResp) : Option String :=
+  let scanner := api == "scanner"
+  if api != "scan" && api != "scanner" then none
+  else if !(sameShape scanner (rowsMetas rs)) then none
+  else if (rowsMetas rs).any (fun m => match m.cols with | .omitted _ _ => true | _ => false) then none
+  else
+  match rs with
+  | [] => none
+  | r :: more =>
+    let tail (evs : List String) (e : String) : String :=
+      if scanner then " rows:[" ++ "|".intercalate evs ++ "] done end:" ++ e ++ " " ++ specTrace rs
+      else " rows:[" ++ "|".intercalate evs ++ "] end:" ++ e ++ " " ++ specTrace rs
+    match r.body with
+    | .result (.rows m rows) =>
+      -- the first page is not entered through a switch: its view is P0, its first event carries no prefix
+      (match specEvents scanner true (r :: more) with
+       | none => none
+       | some (evs, e) => some ("ok P0(" ++ specRowsView r m rows ++ ")" ++ tail evs e))
+    | .result .void | .result (.setKeyspace _) | .result (.schemaChange _) =>
+      if more.isEmpty then some ("ok P0(" ++ specEmptyView r ++ ")" ++ tail (if scanner then [] else ["$"]) "nil") else none
+    | .error msg e =>
+      (match more, e with
+       | _ :: _, _ => none
+       | [], .unprepared _ => none
+       | [], e => some ("ok P0(" ++ specEmptyView r ++ ")" ++ tail (if scanner then [] else ["$"]) s!"E({e.code},{toHex msg},{dErr (viewErr e)})"))
+    | _ => none
+
+
+/-! ### the one-row conveniences -/
+
+open Paged in
+def dQErr : QErr → String
+  | .nil => "nil"
+  | .notFound => "notfound"
+  | .iter e => dIterErr (some e)
+
+open Rows Paged in
+/-- `qone <api> <fv> <ndests> <logical response> WIRE <wire>` -/
+def qoneModel (api : String) (fv nd : Nat) (wire : FrameRead.Bytes) : String :=
+  match execute fv true [wire] with
+  | none => "crash:go"
+  | some (q, _) =>
+    match api with
+    | "scan" =>
+      (match queryScan q (List.replicate nd true) with
+       | none => "crash:go"
+       | some (calls, e) => "ok rows:[" ++ dCalls calls ++ "] end:" ++ dQErr e)
+    | "scancas" =>
+      (match scanCAS q nd with
+       | none => "crash:go"
+       | some (a, calls, e) => s!"ok applied:{a} rows:[" ++ dCalls calls ++ "] end:" ++ dQErr e)
+    | "mapscancas" =>
+      (match mapScanCAS q with
+       | none => "crash:go"
+       | some (a, m, e) => s!"ok applied:{a} map:" ++ dMap (m.map (fun kv => (kv.1, toHex kv.2))) ++ " end:" ++ dQErr e)
+    | _ => "bad-op"
+
+def tPages : TP (List (Nat × LResp × FrameRead.Bytes)) := do
+  let k ← tNat
+  tMany (do
+    let (v, r) ← tResp
+    let sep ← tok
+    if sep != "WIRE" then failure
+    let w ← tHex
+    pure (v, r, w)) k
+
 /-! ## ops -/
 
 def parseLogical (ws : List String) : Option (Nat × LResp × FrameRead.Bytes) :=
@@ -720,6 +940,38 @@ def step (_ : Unit) (ws : List String) : Unit × String :=
          | none => "not-wf-skip"
          | some s => if s == m then m else "MODEL-SPEC-MISMATCH model=" ++ m ++ " spec=" ++ s
      | _, _ => "bad-op")
+  | "pagesx" :: api :: fv :: _prefetch :: rest =>
+    (match fv.toNat?, tPages.run rest with
+     | some fv, some (ps, []) => pagesModel api fv (ps.map (·.2.2))
+     | _, _ => "bad-op")
+  | "pages" :: api :: fv :: _prefetch :: rest =>
+    (match fv.toNat?, tPages.run rest with
+     | some fv, some (ps, []) =>
+       if ps.any (fun p => p.1 != fv) then "bad-op"
+       else if !(ps.all (fun p => wf p.1 p.2.1)) then "not-wf"
+       else if ps.any (fun p => encodeFrame p.1 p.2.1 != p.2.2) then "spec-encoder-mismatch"
+       else
+         let m := pagesModel api fv (ps.map (·.2.2))
+         match pagesSpec api (ps.map (·.2.1)) with
+         | none => "not-wf-pages"
+         | some s => if s == m then m else "MODEL-SPEC-MISMATCH model=" ++ m ++ " spec=" ++ s
+     | _, _ => "bad-op")
+  | "pagesn" :: api :: fv :: _prefetch :: rest =>
+    (match fv.toNat?, tPages.run rest with
+     | some fv, some (ps, []) =>
+       if ps.any (fun p => p.1 != fv) then "bad-op"
+       else if !(ps.all (fun p => wf p.1 p.2.1)) then "not-wf"
+       else if ps.any (fun p => encodeFrame p.1 p.2.1 != p.2.2) then "spec-encoder-mismatch"
+       else
+         let m := pagesModel api fv (ps.map (·.2.2))
+         match pagesSpec api (ps.map (·.2.1)) with
+         | none => "not-wf-pages"
+         | some s => if s == m then m else "MODEL-SPEC-MISMATCH model=" ++ m ++ " spec=" ++ s
+     | _, _ => "bad-op")
+  | "qone" :: api :: fv :: nd :: rest =>
+    (match fv.toNat?, nd.toNat?, rest.getLast?.bind parseHex with
+     | some fv, some nd, some wire => qoneModel api fv nd wire
+     | _, _, _ => "bad-op")
   | _ => "bad-op")
 
 def init : Unit := ()
